@@ -25,34 +25,83 @@ def boolOf : Sexp → Option Bool
   | .atom "F" => some false
   | _ => none
 
-def step (st : DState) (e : Sexp) : DState × String :=
+def sortStrs (xs : List String) : List String := xs.mergeSort (fun a b => a ≤ b)
+
+def showCErr : CErr → String
+  | .typeMismatch => "TypeMismatch"
+  | .subtypeMismatch => "SubtypeMismatch"
+  | .functionApplication => "FunctionApplicationError"
+
+def showUErr : UErr → String
+  | .keyError => "KeyError"
+  | .assertion => "AssertionError"
+
+def leTy (L : Lang) (s t : Ty) : Bool := isSubtype L s t false
+
+def parseEdge : Sexp → Option (Nat × Nat × Bool)
+  | .list [a, b, r] => do pure ((← Sexp.nat? a), (← Sexp.nat? b), (← boolOf r))
+  | _ => none
+
+def showPairs (r : Rel) : String :=
+  let strs := (r.map (fun p => s!"({p.1} {p.2})")).eraseDups
+  " ".intercalate (sortStrs strs)
+
+def stepBasic (st : DState) (e : Sexp) : Option (DState × String) :=
   let L := st.lang
   match e with
   | .list (.atom "lang" :: ds) =>
     match ds.mapM parseLangDecl with
-    | some L' => ({ st with lang := L' }, s!"ok {showBool (wfLangB L')}")
-    | none => (st, "bad-op")
-  | .list [.atom "sub", s, t] =>
-    match Sexp.ty? s, Sexp.ty? t with
-    | some s, some t => (st, showBool (sub L s t))
-    | _, _ => (st, "bad-op")
-  | .list [.atom "eq", s, t] =>
-    match Sexp.ty? s, Sexp.ty? t with
-    | some s, some t => (st, showBool (eqM L s t))
-    | _, _ => (st, "bad-op")
-  | .list [.atom "issub", s, t, b] =>
-    match Sexp.ty? s, Sexp.ty? t, boolOf b with
-    | some s, some t, some b => (st, showBool (isSubtype L s t b))
-    | _, _, _ => (st, "bad-op")
-  | .list [.atom "opsub", a, b, c] =>
-    match Sexp.nat? a, Sexp.nat? b, boolOf c with
-    | some a, some b, some c => (st, showBool (opSub L a b c))
-    | _, _, _ => (st, "bad-op")
-  | .list [.atom "wfty", t] =>
-    match Sexp.ty? t with
-    | some t => (st, showBool (wfTy L t))
-    | _ => (st, "bad-op")
-  | _ => (st, "bad-op")
+    | some L' => some ({ st with lang := L' }, s!"ok {showBool (wfLangB L')}")
+    | none => none
+  | .list [.atom "sub", s, t] => do
+    let s ← Sexp.ty? s; let t ← Sexp.ty? t
+    pure (st, showBool (sub L s t))
+  | .list [.atom "eq", s, t] => do
+    let s ← Sexp.ty? s; let t ← Sexp.ty? t
+    pure (st, showBool (eqM L s t))
+  | .list [.atom "issub", s, t, b] => do
+    let s ← Sexp.ty? s; let t ← Sexp.ty? t; let b ← boolOf b
+    pure (st, showBool (isSubtype L s t b))
+  | .list [.atom "opsub", a, b, c] => do
+    let a ← Sexp.nat? a; let b ← Sexp.nat? b; let c ← boolOf c
+    pure (st, showBool (opSub L a b c))
+  | .list [.atom "wfty", t] => do
+    let t ← Sexp.ty? t
+    pure (st, showBool (wfTy L t))
+  | .list [.atom "apply", f, x] => do
+    let f ← Sexp.ty? f; let x ← Sexp.ty? x
+    pure (st, match applyC L f x with
+      | .ok t => "ok " ++ t.show
+      | .error e => "E:" ++ showCErr e)
+  | .list (.atom "union" :: spec :: ts) => do
+    let spec ← boolOf spec
+    let ts ← ts.mapM Sexp.ty?
+    pure (st, " ".intercalate (sortStrs ((unionOf (leTy L) spec ts).map Ty.show)))
+  | .list (.atom "bag" :: reqs) => do
+    let reqs ← reqs.mapM (fun r => match r with
+      | .list ts => ts.mapM Sexp.ty?
+      | _ => none)
+    let content := bagOf (leTy L) reqs
+    let clauses := content.map (fun c => "[" ++ " ".intercalate (sortStrs (c.map Ty.show)) ++ "]")
+    pure (st, " ".intercalate (sortStrs clauses))
+  | .list (.atom "addfrom" :: es) => do
+    let es ← es.mapM parseEdge
+    let g := es.foldl (fun g (e : Nat × Nat × Bool) => addFrom g e.1 e.2.1 e.2.2) ({} : FD)
+    pure (st, "dep " ++ showPairs g.dep)
+  | .list [.atom "uri", t] => do
+    let t ← Sexp.ty? t
+    pure (st, uriLocal L t)
+  | .list [.atom "deuri", s] => do
+    let s ← Sexp.str? s
+    pure (st, match decodeUri L s with
+      | .ok t => "ok " ++ t.show
+      | .error e => "E:" ++ showUErr e)
+  | _ => none
+
+def step (st : DState) (e : Sexp) : DState × String :=
+  match stepBasic st e with
+  | some r => r
+  | none => (st, "bad-op")
 
 partial def loop (h : IO.FS.Stream) (out : IO.FS.Stream) (st : DState) : IO Unit := do
   let line ← h.getLine
